@@ -88,9 +88,10 @@ def check(ctx):
                   "state must be compared with the goal in the written direction")
     nb = ctx.fn("needing", "NeedBoolean.action")
     Bv = FuncView(ctx, nb)
-    t = Bv.tests(lambda t: src(t) == "state[stateField]")
-    rs = Bv.stores("result")
-    ok = bool(t) and all((isinstance(r.ast.value, ast.Constant) and r.ast.value.value is True) == Bv.dominated_by_edge([r], t[0], "T") for r in rs) and len(rs) == 2
+    from ..rules import truthiness_of
+    rets = [n for n in Bv.cfg.nodes if n.kind == "return"]
+    vals = [truthiness_of(Bv.sym(r.ast.value, r)) for r in rets if r.ast.value is not None]
+    ok = bool(rets) and len(vals) == len(rets) and all(v is not None and src(v) == "state[stateField]" for v in vals)
     ctx.check(ok, "T9-args", nb, "NeedBoolean: truthiness of state[stateField]", "a bare `if state` is the truthiness of the state field")
     na = ctx.fn("acting", "Nact.__call__")
     r = [n for n in ast.walk(na) if isinstance(n, ast.Return)]
